@@ -1,10 +1,10 @@
 """Which units (and extra engines) serve which property, plus MANIFEST metadata."""
-UNITS = ['u_script', 'u_list', 'u_jobs', 'u_tok', 'u_plan', 'u_exp1', 'u_calc', 'u_exp2', 'u_wait', 'u_fd', 'u_env', 'u_args', 'u_proc', 'u_exp3', 'u_bfd', 'u_blt', 'u_jcmd', 'u_read', 'u_cmpl', 'u_bsh', 'u_sig']
+UNITS = ['u_script', 'u_list', 'u_jobs', 'u_tok', 'u_plan', 'u_exp1', 'u_calc', 'u_exp2', 'u_wait', 'u_fd', 'u_env', 'u_args', 'u_proc', 'u_exp3', 'u_bfd', 'u_blt', 'u_jcmd', 'u_read', 'u_cmpl', 'u_bsh', 'u_sig', 'u_open']
 
 PROPERTY_UNITS = {
     'C03': ['u_list', 'u_tok', 'u_fd', 'u_wait', 'u_script', 'u_exp2', 'u_sig', 'u_bfd', 'u_plan'],
     'C06': ['u_jobs', 'u_wait', 'u_jcmd', 'u_sig'],
-    'C05': ['u_script', 'u_list', 'u_jobs', 'u_tok', 'u_plan', 'u_exp1', 'u_calc', 'u_exp2', 'u_wait', 'u_fd', 'u_env', 'u_args', 'u_proc', 'u_exp3', 'u_bfd', 'u_blt', 'u_jcmd', 'u_read', 'u_cmpl', 'u_bsh', 'u_sig'],
+    'C05': ['u_script', 'u_list', 'u_jobs', 'u_tok', 'u_plan', 'u_exp1', 'u_calc', 'u_exp2', 'u_wait', 'u_fd', 'u_env', 'u_args', 'u_proc', 'u_exp3', 'u_bfd', 'u_blt', 'u_jcmd', 'u_read', 'u_cmpl', 'u_bsh', 'u_sig', 'u_open'],
     'C01': ['u_plan', 'u_exp1', 'u_exp2', 'u_exp3', 'u_tok', 'u_fd', 'u_list'],
     'C13': ['u_plan', 'u_exp1', 'u_exp2', 'u_exp3'],
     'C12': ['u_exp1', 'u_exp2'],
@@ -15,8 +15,8 @@ PROPERTY_UNITS = {
     'C14': ['u_script'],
     'C09': ['u_env', 'u_exp2', 'u_proc', 'u_read', 'u_fd'],
     'C02': ['u_fd', 'u_wait', 'u_plan', 'u_blt', 'u_sig'],
-    'C04': ['u_fd', 'u_plan', 'u_bfd', 'u_blt', 'u_exp2'],
-    'C08': ['u_fd', 'u_bfd', 'u_blt'],
+    'C04': ['u_fd', 'u_plan', 'u_bfd', 'u_blt', 'u_exp2', 'u_open'],
+    'C08': ['u_fd', 'u_bfd', 'u_blt', 'u_open'],
     'C17': ['u_exp2', 'u_env'],
     'C19': ['u_calc', 'u_fd'],
 }
